@@ -583,6 +583,23 @@ Qed.
 Lemma forallb_items authz reqs : forallb (fun r => authz (item_of r)) reqs = forallb authz (map item_of reqs).
 Proof. induction reqs as [|r l IH]; [reflexivity|]. cbn [forallb map]. rewrite IH. reflexivity. Qed.
 
+Lemma filters_core_spec h id authz :
+  filters_core h id authz =
+  if asks h then
+    if forallb authz (asked_items h)
+    then Pass (clear_imp (h_del H_AUTH h))
+              (impersonated (h_del H_AUTH h)
+                 (user_req (h_del H_AUTH h) :: map RGroup (h_values H_GROUP (h_del H_AUTH h)) ++ extra_reqs (h_del H_AUTH h)))
+    else Refuse 403
+  else if malformed h then Refuse 500 else Pass (clear_imp (h_del H_AUTH h)) id.
+Proof.
+  unfold filters_core.
+  rewrite build_spec, asks_del. destruct (asks h) eqn:Ha.
+  - rewrite forallb_items, items_of_reqs, asked_items_del. reflexivity.
+  - rewrite <- (malformed_del h). unfold malformed. rewrite asks_del, Ha. cbn [negb andb].
+    destruct (has_group_hdr (h_del H_AUTH h) || has_extra_hdr (h_del H_AUTH h))%bool; reflexivity.
+Qed.
+
 Lemma filters_spec h id authz :
   filters h id authz =
   if is_upgrade_request h then Upgrade
@@ -593,20 +610,14 @@ Lemma filters_spec h id authz :
                       (user_req (h_del H_AUTH h) :: map RGroup (h_values H_GROUP (h_del H_AUTH h)) ++ extra_reqs (h_del H_AUTH h)))
          else Refuse 403
        else if malformed h then Refuse 500 else Pass (clear_imp (h_del H_AUTH h)) id.
-Proof.
-  unfold filters. destruct (is_upgrade_request h); [reflexivity|].
-  rewrite build_spec, asks_del. destruct (asks h) eqn:Ha.
-  - rewrite forallb_items, items_of_reqs, asked_items_del. reflexivity.
-  - rewrite <- (malformed_del h). unfold malformed. rewrite asks_del, Ha. cbn [negb andb].
-    destruct (has_group_hdr (h_del H_AUTH h) || has_extra_hdr (h_del H_AUTH h))%bool; reflexivity.
-Qed.
+Proof. unfold filters. rewrite filters_core_spec. reflexivity. Qed.
 
-Lemma filters_pass h id authz hc id1 :
-  filters h id authz = Pass hc id1 ->
+Lemma filters_core_pass h id authz hc id1 :
+  filters_core h id authz = Pass hc id1 ->
   clean hc /\ matches_expected id1 (expected h id) /\
   (asks h = true -> forallb authz (asked_items h) = true) /\ (asks h = false -> id1 = id).
 Proof.
-  rewrite filters_spec. destruct (is_upgrade_request h); [discriminate|].
+  rewrite filters_core_spec.
   destruct (asks h) eqn:Ha.
   - destruct (forallb authz (asked_items h)) eqn:Hz; [|discriminate].
     intros H. inversion H; subst hc id1; clear H.
@@ -616,6 +627,12 @@ Proof.
     split; [apply clean_clear|]. split; [|split; [discriminate|auto]].
     unfold matches_expected, expected. rewrite Ha. cbn. auto.
 Qed.
+
+Lemma filters_pass h id authz hc id1 :
+  filters h id authz = Pass hc id1 ->
+  clean hc /\ matches_expected id1 (expected h id) /\
+  (asks h = true -> forallb authz (asked_items h) = true) /\ (asks h = false -> id1 = id).
+Proof. unfold filters. destruct (is_upgrade_request h); [discriminate|apply filters_core_pass]. Qed.
 
 (* ------------------------------------------------------------------ multisets by counting *)
 Lemma count_perm x a b : Permutation a b -> count x a = count x b.
@@ -662,17 +679,48 @@ Proof.
 Qed.
 
 (* ------------------------------------------------------------------ the theorems *)
+Lemma clean_del k h : clean h -> clean (h_del k h).
+Proof. intros Hc e He. apply in_del in He. apply Hc. tauto. Qed.
+
+Lemma clean_request_write h : clean h -> clean (request_write_headers h).
+Proof.
+  intros Hc. unfold request_write_headers. destruct (h_has "User-Agent" h).
+  - destruct (String.eqb (h_get "User-Agent" h) ""); [apply clean_del; exact Hc|apply clean_set; [reflexivity|exact Hc]].
+  - apply clean_set; [reflexivity|exact Hc].
+Qed.
+
+Lemma upgrade_shape ip id h h' :
+  clean h -> upgrade_send ip id h = Forwarded h' ->
+  uname id <> "" /\
+  exists base, noimp base /\ h_values H_AUTH base = [] /\ h' = wire (base ++ generated_headers id).
+Proof.
+  intros Hc Hs. unfold upgrade_send in Hs.
+  set (hb := request_write_headers (upgrade_headers ip h)) in *.
+  assert (Hcb : clean hb).
+  { apply clean_request_write. unfold upgrade_headers. apply clean_set; [reflexivity|exact Hc]. }
+  assert (Hub : h_values H_USER hb = []) by (apply (clean_values H_USER hb Hcb eq_refl)).
+  destruct (String.eqb_spec (uname id) "") as [E|Hn].
+  - unfold wrap_request, h_get in Hs. rewrite Hub, E in Hs. discriminate.
+  - split; [exact Hn|]. rewrite (wrap_shape id hb Hub Hn) in Hs. inversion Hs; subst h'; clear Hs.
+    exists (h_del H_USER hb). split; [|split; [|reflexivity]].
+    + intros e He. apply in_del in He. destruct He as [He _]. apply (clean_noimp _ Hcb e He).
+    + rewrite hv_del. change (String.eqb H_USER H_AUTH) with false. apply (clean_values H_AUTH hb Hcb eq_refl).
+Qed.
+
 Lemma forwarded_facts token ip h id authz h' :
   pipeline token ip h id authz = Forwarded h' ->
   exists hc id1 base,
-    filters h id authz = Pass hc id1 /\ matches_expected id1 (expected h id) /\ uname id1 <> "" /\
-    noimp base /\ h_values H_AUTH base = ["Bearer " +++ token] /\ h' = wire (base ++ generated_headers id1) /\
+    filters_core h id authz = Pass hc id1 /\ matches_expected id1 (expected h id) /\ uname id1 <> "" /\
+    noimp base /\
+    h_values H_AUTH base = (if is_upgrade_request h then [] else ["Bearer " +++ token]) /\
+    h' = wire (base ++ generated_headers id1) /\
     (asks h = true -> forallb authz (asked_items h) = true) /\ (asks h = false -> id1 = id).
 Proof.
-  unfold pipeline. destruct (filters h id authz) as [hc id1| |] eqn:F; try discriminate.
-  intros Hs. destruct (filters_pass _ _ _ _ _ F) as [Hc [Hm [Hz Hself]]].
-  destruct (send_shape _ _ _ _ _ Hc Hs) as [Hn [base [Hb [Ha Hh]]]].
-  exists hc, id1, base. auto 10.
+  unfold pipeline. destruct (filters_core h id authz) as [hc id1| |] eqn:F; try discriminate.
+  intros Hs. destruct (filters_core_pass _ _ _ _ _ F) as [Hc [Hm [Hz Hself]]].
+  destruct (is_upgrade_request h).
+  - destruct (upgrade_shape _ _ _ _ Hc Hs) as [Hn [base [Hb [Ha Hh]]]]. exists hc, id1, base. auto 10.
+  - destruct (send_shape _ _ _ _ _ Hc Hs) as [Hn [base [Hb [Ha Hh]]]]. exists hc, id1, base. auto 10.
 Qed.
 
 Theorem identity_exact token ip h id authz h' :
@@ -705,15 +753,15 @@ Proof.
 Qed.
 
 Theorem denied_not_forwarded token ip h id authz :
-  is_upgrade_request h = false -> asks h = true -> forallb authz (asked_items h) = false ->
+  asks h = true -> forallb authz (asked_items h) = false ->
   pipeline token ip h id authz = Answered 403.
-Proof. intros Hu Ha Hz. unfold pipeline. rewrite filters_spec, Hu, Ha, Hz. reflexivity. Qed.
+Proof. intros Ha Hz. unfold pipeline. rewrite filters_core_spec, Ha, Hz. reflexivity. Qed.
 
 Theorem malformed_not_forwarded token ip h id authz :
-  is_upgrade_request h = false -> malformed h = true ->
+  malformed h = true ->
   pipeline token ip h id authz = Answered 500.
 Proof.
-  intros Hu Hm. unfold pipeline. rewrite filters_spec, Hu, Hm.
+  intros Hm. unfold pipeline. rewrite filters_core_spec, Hm.
   unfold malformed in Hm. apply Bool.andb_true_iff in Hm. destruct Hm as [Ha _].
   apply Bool.negb_true_iff in Ha. rewrite Ha. reflexivity.
 Qed.
@@ -727,12 +775,13 @@ Qed.
 Theorem no_client_identity_header_survives token ip h id authz h' :
   pipeline token ip h id authz = Forwarded h' ->
   exists id1, matches_expected id1 (expected h id) /\
-    h_values H_AUTH h' = [trim_ows ("Bearer " +++ token)] /\
+    h_values H_AUTH h' = (if is_upgrade_request h then [] else [trim_ows ("Bearer " +++ token)]) /\
     forall e, In e h' -> has_prefix (fst e) H_IMP = true -> In e (wire (generated_headers id1)).
 Proof.
   intros Hp. destruct (forwarded_facts _ _ _ _ _ _ Hp) as [hc [id1 [base [_ [Hm [_ [Hb [Ha [Hh _]]]]]]]]].
   exists id1. split; [exact Hm|]. subst h'. split.
-  - rewrite hv_wire, hv_app, Ha, (allimp_values H_AUTH _ (allimp_generated id1) eq_refl). reflexivity.
+  - rewrite hv_wire, hv_app, Ha, (allimp_values H_AUTH _ (allimp_generated id1) eq_refl).
+    destruct (is_upgrade_request h); reflexivity.
   - intros e He Hpre. unfold wire in He. rewrite map_app in He. apply in_app_iff in He. destruct He as [He|He]; [|exact He].
     apply in_map_iff in He. destruct He as [e0 [<- He0]]. cbn [fst] in Hpre. rewrite (Hb e0 He0) in Hpre. discriminate.
 Qed.
@@ -763,10 +812,9 @@ Proof.
 Qed.
 
 Theorem model_meets_spec token ip h id deny :
-  is_upgrade_request h = false ->
   spec_clauses token h id deny (obs_of (pipeline token ip h id (allowed deny))) = [true; true; true; true].
 Proof.
-  intros Hup. unfold spec_clauses.
+  unfold spec_clauses.
   assert (C1 : identity_ok h id deny (obs_of (pipeline token ip h id (allowed deny))) = true).
   { destruct (pipeline token ip h id (allowed deny)) as [h'| |] eqn:P; [|reflexivity|reflexivity].
     unfold identity_ok, obs_of. cbn [o_ups].
@@ -779,16 +827,19 @@ Proof.
   assert (C2 : denied_ok h deny (obs_of (pipeline token ip h id (allowed deny))) = true).
   { unfold denied_ok. destruct (asks h && negb (forallb (allowed deny) (asked_items h)))%bool eqn:D; [|reflexivity].
     apply Bool.andb_true_iff in D. destruct D as [Ha Hz]. apply Bool.negb_true_iff in Hz.
-    rewrite (denied_not_forwarded token ip h id _ Hup Ha Hz). reflexivity. }
+    rewrite (denied_not_forwarded token ip h id _ Ha Hz). reflexivity. }
   assert (C3 : malformed_ok h (obs_of (pipeline token ip h id (allowed deny))) = true).
   { unfold malformed_ok. destruct (malformed h) eqn:M; [|reflexivity].
-    rewrite (malformed_not_forwarded token ip h id _ Hup M). reflexivity. }
-  assert (C4 : no_client_header_ok token (obs_of (pipeline token ip h id (allowed deny))) = true).
+    rewrite (malformed_not_forwarded token ip h id _ M). reflexivity. }
+  assert (C4 : no_client_header_ok token (is_upgrade_request h) (obs_of (pipeline token ip h id (allowed deny))) = true).
   { destruct (pipeline token ip h id (allowed deny)) as [h'| |] eqn:P; [|reflexivity|reflexivity].
     unfold no_client_header_ok, obs_of. cbn [o_ups forallb]. rewrite Bool.andb_true_r.
     destruct (forwarded_facts _ _ _ _ _ _ P) as [hc [id1 [base [_ [_ [_ [Hb [Ha [Hh _]]]]]]]]].
     destruct (no_client_identity_header_survives _ _ _ _ _ _ P) as [id2 [_ [Hauth _]]].
-    rewrite Hauth, list_eqb_refl. cbn [andb].
+    assert (Hauthb : (list_eqb String.eqb (h_values H_AUTH h') [trim_ows ("Bearer " +++ token)]
+                      || (is_upgrade_request h && match h_values H_AUTH h' with [] => true | _ => false end))%bool = true).
+    { rewrite Hauth. destruct (is_upgrade_request h); [reflexivity|]. rewrite list_eqb_refl. reflexivity. }
+    rewrite Hauthb. cbn [andb].
     assert (Hone : List.length (h_values H_USER h') = 1%nat).
     { subst h'. rewrite hv_wire, hv_app, (noimp_values H_USER base Hb eq_refl), generated_user. reflexivity. }
     apply forallb_forall. intros e He. destruct (has_prefix (fst e) H_IMP) eqn:Hp; [|reflexivity].
